@@ -721,7 +721,7 @@ def drive_net(case):
                               ','.join([str(o['n_min']), str(o['n_max']), str(o['fi_min']), str(o['fi_max']),
                                         runs(o['idx']), rle(o['cells'])]),
                               'N' if o['rev'] is None else str(o['rev'])]) for o in obs['oms'])
-    obs['line'] = body + '#T#[' + ','.join('N' if x is None else str(x) for x in owners) + ']'
+    obs['line'] = body + '#[' + ','.join('N' if x is None else str(x) for x in owners) + ']'
     return obs
 
 
@@ -928,14 +928,28 @@ def run(ctx):
                 ctx.violation(key, desc, pc)
             terms.append(term_net(c, obs))
             meta.append((pc, obs['line'], 'corr:Oms.build_oms_list'))
-    lines = common.coq_eval('C15', 'Prelude Model.Spectrum Model.Oms Run.C15', terms, per_file=ctx.scale(40, 120),
-                            prelude='From Coq Require Import QArith.\nOpen Scope Z_scope.')
+    # the network terms are the heavy ones: shard them finely so that they spread over all coqc processes
+    heavy = [i for i, mt in enumerate(meta) if mt[2] == 'corr:Oms.build_oms_list']
+    light = [i for i, mt in enumerate(meta) if mt[2] != 'corr:Oms.build_oms_list']
+    lines = [None] * len(terms)
+    for idxs, per_file, tag in ((light, ctx.scale(60, 150), 'cases'), (heavy, ctx.scale(10, 30), 'nets')):
+        out = common.coq_eval('C15', 'Prelude Model.Spectrum Model.Oms Run.C15', [terms[i] for i in idxs],
+                              per_file=per_file, tag=tag, prelude='From Coq Require Import QArith.\nOpen Scope Z_scope.')
+        for i, o in zip(idxs, out):
+            lines[i] = o
     for (pc, impl, corr), model in zip(meta, lines):
         m = canon_model(model)
-        if corr == 'corr:Oms.build_oms_list' and m.split('#')[1:2] == ['F']:
-            ctx.count('net_model_says_not_chain_wf')
-        if corr == 'corr:Oms.build_oms_list' and impl.startswith('E:'):
-            m = m.split('#')[0]
+        if corr == 'corr:Oms.build_oms_list':
+            # the model row carries two flags: chain_wf_b (graph is chain-structured) and net_hyps_b (all hypotheses
+            # of theorem build_oms_list_ok hold for this network)
+            parts = m.split('#')
+            flags = parts[1] if len(parts) > 1 else '??'
+            ctx.count('net_chain_wf_' + flags[0:1])
+            ctx.count('net_theorem_hypotheses_' + flags[1:2])
+            if flags[1:2] == 'T' and impl.startswith('E:'):
+                ctx.violation('theorem_hyps_but_raises', 'all hypotheses of build_oms_list_ok hold, yet build_oms_list '
+                              'raised ' + impl, pc)
+            m = parts[0] if impl.startswith('E:') or len(parts) < 3 else parts[0] + '#' + parts[2]
         if m != impl:
             a, b = impl.split('/'), m.split('/')
             k = next((i for i in range(min(len(a), len(b))) if a[i] != b[i]), min(len(a), len(b)))
